@@ -11,7 +11,7 @@ from typing import Any, Callable
 import z3
 
 from .engine import (Frame, Interp, PathAbort, PyExc, _Break, _Continue, _Return)
-from .values import (NONE, IntSeq, Unsupported, V, VBool, VBound, VBytes, VConst, VDict, VFloat,
+from .values import (simp, NONE, IntSeq, Unsupported, V, VBool, VBound, VBytes, VConst, VDict, VFloat,
                      VInt, VList, VObj, VStr, VSuper, VTuple, wrap)
 
 
@@ -251,7 +251,7 @@ def for_loop(I: Interp, st: Any, fr: Frame) -> None:
         return invariant_for(I, st, fr, it, lc, key)
     seq: VList | None = None
     if isinstance(it, VList) and it.items is None:
-        n = z3.simplify(it.n)
+        n = simp(it.n)
         if not z3.is_int_value(n):
             seq = it
     if seq is None:
@@ -407,7 +407,7 @@ def template_for(I: Interp, st: Any, fr: Frame, seq: VList) -> None:
             fr.env[name] = VBytes(z3.Concat(old.t, ch.seq), old.mutable)
         elif isinstance(old, VInt):
             assert isinstance(new, VInt)
-            t = z3.simplify(new.t)
+            t = simp(new.t)
             if t.eq(ph):
                 continue
             mx = match_max(t, ph)
@@ -423,7 +423,7 @@ def template_for(I: Interp, st: Any, fr: Frame, seq: VList) -> None:
                                                     out == z3.substitute(c, (j, sk)))))
                 fr.env[name] = VInt(out)
                 continue
-            d_ = z3.simplify(t - ph)
+            d_ = simp(t - ph)
             if z3.is_int_value(d_):
                 fr.env[name] = VInt(old.t + d_.as_long() * n)
                 continue
@@ -431,7 +431,7 @@ def template_for(I: Interp, st: Any, fr: Frame, seq: VList) -> None:
                               f"{fr.qualname}: {t}")
         else:
             assert isinstance(new, VBool) and isinstance(old, VBool)
-            if not z3.simplify(new.t).eq(ph):
+            if not simp(new.t).eq(ph):
                 raise Unsupported("loop-carried bool update")
     # 2. locals first assigned in the body stay bound to the last iteration's value: refuse use
     for name in carried_names(st.body) + tnames:
@@ -456,23 +456,23 @@ def template_for(I: Interp, st: Any, fr: Frame, seq: VList) -> None:
             m = len(old_items)
 
             def get(i: Any, added=added, k_=k_, old_items=old_items, m=m) -> V:
-                ic = z3.simplify(i) if z3.is_expr(i) else z3.IntVal(i)
+                ic = simp(i) if z3.is_expr(i) else z3.IntVal(i)
                 if z3.is_int_value(ic) and ic.as_long() < m:
                     return old_items[ic.as_long()]
                 if k_ == 1:
-                    return subst(added[0], [(j, z3.simplify(ic - m))])
+                    return subst(added[0], [(j, simp(ic - m))])
                 raise Unsupported("several appends per iteration to one list")
             if m != 0 and k_ != 1:
                 raise Unsupported("several appends per iteration")
             if m != 0:
                 raise Unsupported("append to a non-empty list in a templated loop")
             lst.items = None
-            lst.n = z3.simplify(n * k_) if k_ == 1 else None
+            lst.n = simp(n * k_) if k_ == 1 else None
             if k_ != 1:
                 raise Unsupported("several appends per iteration to one list")
             lst.get = get
         else:
-            if cl.n is not None and not z3.simplify(cl.n - n_sym).eq(z3.IntVal(0)):
+            if cl.n is not None and not simp(cl.n - n_sym).eq(z3.IntVal(0)):
                 raise Unsupported("append to a functional list in a templated loop")
 
 
@@ -545,10 +545,14 @@ class LoopContract:
     variant(I, fr)          -> z3 Int (optional): must decrease and stay >= 0
     """
 
-    def __init__(self, havoc: Callable, invariant: Callable, variant: Callable | None = None):
+    def __init__(self, havoc: Callable, invariant: Callable, variant: Callable | None = None,
+                 progress: Callable | None = None):
         self.havoc = havoc
         self.invariant = invariant
         self.variant = variant
+        # progress(I, fr, None) -> snapshot at the loop head; progress(I, fr, snapshot) ->
+        # z3 Bool stating that a well-founded (e.g. lexicographic) measure went down
+        self.progress = progress
 
 
 def _check_inv(I: Interp, lc: LoopContract, fr: Frame, key: tuple[str, int], phase: str) -> None:
@@ -578,6 +582,7 @@ def while_loop(I: Interp, st: ast.While, fr: Frame) -> None:
     for name, f in lc.invariant(I, fr):
         I.assume(f)
     v0 = lc.variant(I, fr) if lc.variant else None
+    snap = lc.progress(I, fr, None) if lc.progress else None
     if I.branch(I.eval(st.test, fr)):
         try:
             I.exec_block(st.body, fr)
@@ -589,6 +594,8 @@ def while_loop(I: Interp, st: ast.While, fr: Frame) -> None:
         if v0 is not None:
             v1 = lc.variant(I, fr)
             I.prove(f"{key[0]}/loop{key[1]}/variant-decreases", z3.And(v1 < v0, v0 >= 0))
+        if lc.progress:
+            I.prove(f"{key[0]}/loop{key[1]}/measure-decreases", lc.progress(I, fr, snap))
         raise PathAbort()
     I.exec_block(st.orelse, fr)
 
@@ -638,7 +645,7 @@ def comprehension(I: Interp, e: Any, fr: Frame, kind: str) -> V:
     if len(gens) == 1 and not gens[0].ifs and kind in ("list", "gen"):
         src = I.eval(gens[0].iter, fr)
         if isinstance(src, VList) and src.items is None and \
-                not z3.is_int_value(z3.simplify(src.n)):
+                not z3.is_int_value(simp(src.n)):
             return functional_map(I, e, fr, src, gens[0])
         return concrete_comp(I, e, fr, kind, [src])
     return concrete_comp(I, e, fr, kind, None)
